@@ -1,7 +1,7 @@
 """C04 - slicing returns exactly the selected characters and styles, closed at the end."""
 from .. import obs as O
 from ..gen import gen_bound, gen_range
-from .common import Contract, ansi_values, history, run_cases, tier_sizes, safe_obs, is_ansi, esc_seam_values
+from .common import Contract, ansi_values, history, run_cases, tier_sizes, safe_obs, is_ansi, esc_seam_values, small_scope_values, small_scope_on
 
 PROP = 'C04'
 RULE = ('case = one s[i], s[i:j], clip(a,b) or iteration on a reachable value, bounds aimed at change points '
@@ -176,6 +176,25 @@ def drive(ctx, mon, tier, only_case=None):
     sz = tier_sizes(tier)
 
     def body(rng, ex, case):
+        if case == 0:
+            # bounded-exhaustive part: every small-scope value x every slice / index with bounds in -6..6 or None
+            m = small_scope_on(ctx, tier)
+            bounds = [None] + list(range(-6, 7))
+            nv = 0
+            for v, _ in small_scope_values(L, m, ctx.shard, ctx.extra.get('nshards', 1),
+                                            cls=L.AnsiStr if ctx.shard % 4 == 3 else None):
+                nv += 1
+                for a in bounds:
+                    for b in bounds:
+                        v[a:b]
+                for i in range(-6, 7):
+                    try:
+                        v[i]
+                    except IndexError:
+                        pass
+                iteration_probe(ctx, mon, v)
+            ctx.extra['n_small_scope_values'] = nv
+            return
         profile = 'mixed' if rng.random() < 0.3 else 'wf'
         history(L, rng, ex, rng.randint(1, sz['nops']), sz['maxlen'], profile, WEIGHTS, esc=rng.random() < 0.12)
         vals = ansi_values(L, ex)
